@@ -442,3 +442,920 @@ Proof.
   rewrite He1, He2. rewrite <- (decl_file_spec p f1 t1 W Hf1 Ht1), <- (decl_file_spec p f2 t2 W Hf2 Ht2).
   rewrite Hn1, Hn2. reflexivity.
 Qed.
+
+(* ---------------------------------------------------------------- MakeData *)
+
+Lemma new_walk_absent : forall T l found,
+  (forall t, In t l -> ts_name t <> T) ->
+  new_walk T l found = if found then MGen else MFatal DgNotExists.
+Proof.
+  intros T l. induction l as [|a l IH]; simpl; intros found H; [reflexivity|].
+  assert (Ha : (ts_name a =? T) = false) by (apply String.eqb_neq; apply H; left; reflexivity).
+  rewrite Ha. simpl. apply IH. intros t Ht. apply H. right. exact Ht.
+Qed.
+
+Lemma new_walk_unique : forall T l t, NoDup (names l) -> In t l -> ts_name t = T ->
+  new_walk T l false =
+  if negb (is_struct t) then MFatal DgNotStruct else if has_prefix "_" T then MFatal DgNotExists else MGen.
+Proof.
+  intros T l t. induction l as [|a l IH]; simpl; intros Hn Ht He; [contradiction|].
+  inversion Hn as [|x xs Hna Hn']; subst x xs.
+  destruct (ts_name a =? T) eqn:Ea; simpl.
+  - apply String.eqb_eq in Ea.
+    assert (a = t).
+    { destruct Ht as [Ht|Ht]; [exact Ht|]. exfalso. apply Hna. rewrite Ea, <- He. apply in_map. exact Ht. }
+    subst a. assert (Habs : forall t', In t' l -> ts_name t' <> T).
+    { intros t' Ht' C. apply Hna. rewrite Ea, <- C. apply in_map. exact Ht'. }
+    destruct (is_struct t); simpl; [|reflexivity]. rewrite Ea.
+    destruct (has_prefix "_" T); apply new_walk_absent; exact Habs.
+  - apply String.eqb_neq in Ea. destruct Ht as [Ht|Ht]; [subst a; contradiction|].
+    apply IH; assumption.
+Qed.
+
+Definition alias_pred (T : string) (t : tspec) : bool := ts_alias t && (ts_name t =? T).
+
+Lemma enum_walk_specs_existsb : forall T l, enum_walk_specs T l = existsb (alias_pred T) l.
+Proof. intros T l. induction l as [|t l IH]; simpl; [reflexivity|]. rewrite IH. reflexivity. Qed.
+
+Definition consts_in (T : string) (ds : list decl) : nat := fold_right (fun d m => consts_decl T d + m) 0 ds.
+
+Lemma consts_in_app : forall T l1 l2, consts_in T (l1 ++ l2) = consts_in T l1 + consts_in T l2.
+Proof. intros T l1 l2. induction l1 as [|d l1 IH]; simpl; [reflexivity|]. rewrite IH. lia. Qed.
+
+Lemma consts_of_all : forall p T, consts_of p T = consts_in T (all_decls p).
+Proof.
+  intros p T. unfold consts_of, all_decls. induction (p_files p) as [|f fs IH]; simpl; [reflexivity|].
+  rewrite consts_in_app, IH. reflexivity.
+Qed.
+
+Lemma enum_walk_ok : forall p T ds n,
+  existsb (alias_pred T) (flat_map walk_decl ds) = false ->
+  (type_is_int p T = true \/ consts_in T ds = 0) ->
+  enum_walk p T ds n = if Nat.eqb (n + consts_in T ds) 0 then MSkip else MGen.
+Proof.
+  intros p T ds. induction ds as [|d ds IH]; intros n Ha Hc.
+  - simpl. rewrite Nat.add_0_r. reflexivity.
+  - simpl in Ha. rewrite existsb_app in Ha. apply orb_false_iff in Ha. destruct Ha as [Ha1 Ha2].
+    destruct d as [l|ty ns|l|txt]; simpl.
+    + simpl in Ha1. rewrite enum_walk_specs_existsb, Ha1. apply IH; [exact Ha2|]. simpl in Hc. exact Hc.
+    + simpl in Hc. destruct (ty =? T) eqn:Et; simpl.
+      * destruct ns as [|x ns].
+        -- simpl. apply IH; [exact Ha2|]. simpl in Hc. exact Hc.
+        -- assert (Hi : type_is_int p T = true).
+           { destruct Hc as [Hc|Hc]; [exact Hc|]. simpl in Hc. discriminate. }
+           rewrite Hi. rewrite IH; [|exact Ha2|left; exact Hi].
+           replace (n + Datatypes.length (x :: ns) + consts_in T ds)
+             with (n + (Datatypes.length (x :: ns) + consts_in T ds)) by lia. reflexivity.
+      * apply IH; [exact Ha2|]. exact Hc.
+    + simpl in Ha1. rewrite enum_walk_specs_existsb, Ha1. apply IH; [exact Ha2|]. simpl in Hc. exact Hc.
+    + apply IH; [exact Ha2|]. simpl in Hc. exact Hc.
+Qed.
+
+Lemma enum_walk_alias_fatal : forall p T ds n,
+  existsb (alias_pred T) (flat_map walk_decl ds) = true -> exists d, enum_walk p T ds n = MFatal d.
+Proof.
+  intros p T ds. induction ds as [|d ds IH]; intros n Ha; [discriminate|].
+  simpl in Ha. rewrite existsb_app in Ha.
+  destruct d as [l|ty ns|l|txt]; simpl in *.
+  - rewrite enum_walk_specs_existsb. destruct (existsb (alias_pred T) l); [eexists; reflexivity|].
+    apply IH. exact Ha.
+  - destruct (ty =? T); simpl; [|apply IH; exact Ha].
+    destruct ns as [|x ns]; [apply IH; exact Ha|].
+    destruct (type_is_int p T); [apply IH; exact Ha | eexists; reflexivity].
+  - rewrite enum_walk_specs_existsb. destruct (existsb (alias_pred T) l); [eexists; reflexivity|].
+    apply IH. exact Ha.
+  - apply IH. exact Ha.
+Qed.
+
+Lemma enum_walk_nonint_fatal : forall p T ds n,
+  type_is_int p T = false -> consts_in T ds <> 0 -> exists d, enum_walk p T ds n = MFatal d.
+Proof.
+  intros p T ds. induction ds as [|d ds IH]; intros n Hi Hc; [simpl in Hc; contradiction|].
+  destruct d as [l|ty ns|l|txt]; simpl in *.
+  - destruct (enum_walk_specs T l); [eexists; reflexivity | apply IH; assumption].
+  - destruct (ty =? T); simpl; [|apply IH; assumption].
+    destruct ns as [|x ns]; [apply IH; assumption|]. rewrite Hi. eexists; reflexivity.
+  - destruct (enum_walk_specs T l); [eexists; reflexivity | apply IH; assumption].
+  - apply IH; assumption.
+Qed.
+
+Lemma type_is_int_unique : forall p t, wf p -> In t (pkg_specs p) -> type_is_int p (ts_name t) = ts_int t.
+Proof.
+  intros p t W Ht. unfold type_is_int.
+  destruct (find (fun t0 => ts_name t0 =? ts_name t) (pkg_specs p)) as [t'|] eqn:E.
+  - apply find_some in E. destruct E as [Ht' He]. apply String.eqb_eq in He.
+    rewrite (named_unique p t' t W); try assumption; try reflexivity; apply in_walk_pkg; left; assumption.
+  - pose proof (find_none _ _ E t Ht) as C. simpl in C. rewrite String.eqb_refl in C. discriminate.
+Qed.
+
+Lemma type_is_int_absent : forall p T, (forall t, In t (pkg_specs p) -> ts_name t <> T) -> type_is_int p T = false.
+Proof.
+  intros p T H. unfold type_is_int. destruct (find (fun t => ts_name t =? T) (pkg_specs p)) as [t|] eqn:E; [|reflexivity].
+  apply find_some in E. destruct E as [Ht He]. apply String.eqb_eq in He. exfalso. exact (H t Ht He).
+Qed.
+
+Lemma nameable_iff : forall c p T,
+  nameable c p T = true <-> exists t, In t (pkg_specs p) /\ ts_name t = T /\ eligible c p t = true.
+Proof.
+  intros c p T. unfold nameable. rewrite existsb_exists. split.
+  - intros [t [Ht H]]. apply andb_true_iff in H. destruct H as [H1 H2]. apply String.eqb_eq in H1. exists t. tauto.
+  - intros [t [Ht [H1 H2]]]. exists t. split; [exact Ht|]. rewrite H2. subst T. rewrite String.eqb_refl. reflexivity.
+Qed.
+
+Lemma no_alias_named : forall p t, wf p -> In t (walk_pkg p) -> ts_alias t = false ->
+  existsb (alias_pred (ts_name t)) (walk_pkg p) = false.
+Proof.
+  intros p t W Ht Ha. apply existsb_false_forall. intros t' Ht'. unfold alias_pred.
+  destruct (ts_name t' =? ts_name t) eqn:E; [|apply andb_false_r].
+  apply String.eqb_eq in E. rewrite (named_unique p t' t W Ht' Ht E), Ha. reflexivity.
+Qed.
+
+Lemma alias_named_walk : forall p T, alias_named p T = existsb (alias_pred T) (flat_map walk_decl (all_decls p)).
+Proof. intros p T. unfold alias_named. rewrite walk_pkg_decls. reflexivity. Qed.
+
+Lemma make_data_nameable : forall c p b T, wf p -> nameable c p T = true -> make_data c p b T = MGen.
+Proof.
+  intros c p b T W Hn. apply nameable_iff in Hn. destruct Hn as [t [Ht [He Hel]]].
+  assert (Hw : In t (walk_pkg p)) by (apply in_walk_pkg; left; exact Ht).
+  destruct c; simpl in *.
+  - apply andb_true_iff in Hel. destruct Hel as [Hs Hp]. rewrite (new_walk_unique T (walk_pkg p) t (wf_names p W) Hw He).
+    rewrite Hs. simpl. rewrite He in Hp. apply negb_true_iff in Hp. rewrite Hp. reflexivity.
+  - rewrite !andb_true_iff in Hel. destruct Hel as [[Hi Ha] Hc]. apply negb_true_iff in Ha. apply negb_true_iff in Hc.
+    subst T. rewrite enum_walk_ok.
+    + rewrite <- consts_of_all. simpl. rewrite Hc. reflexivity.
+    + rewrite <- walk_pkg_decls. apply no_alias_named; assumption.
+    + left. rewrite type_is_int_unique; assumption.
+  - assert (Hx : existsb (fun t0 => (ts_name t0 =? T) && is_rest_iface t0) (walk_pkg p) = true).
+    { apply existsb_exists. exists t. split; [exact Hw|]. rewrite He, String.eqb_refl, Hel. reflexivity. }
+    rewrite Hx. reflexivity.
+  - apply andb_true_iff in Hel. destruct Hel as [Hs Hd].
+    assert (Hx : existsb (fun t0 => (ts_name t0 =? T) && is_struct t0) (walk_pkg p) = true).
+    { apply existsb_exists. exists t. split; [exact Hw|]. rewrite He, String.eqb_refl, Hs. reflexivity. }
+    rewrite Hx. simpl. unfold dest_has_struct in Hd. rewrite He in Hd. rewrite Hd. reflexivity.
+Qed.
+
+(* a name that occurs nowhere, or only with the wrong kind *)
+Lemma named_or_absent : forall p T,
+  (exists t, In t (walk_pkg p) /\ ts_name t = T) \/ (forall t, In t (walk_pkg p) -> ts_name t <> T).
+Proof.
+  intros p T. destruct (existsb (fun t => ts_name t =? T) (walk_pkg p)) eqn:E.
+  - left. apply existsb_exists in E. destruct E as [t [Ht He]]. apply String.eqb_eq in He. exists t. tauto.
+  - right. intros t Ht C. rewrite existsb_false_forall in E. specialize (E t Ht). simpl in E.
+    rewrite C, String.eqb_refl in E. discriminate.
+Qed.
+
+Lemma not_nameable_ineligible : forall c p t, nameable c p (ts_name t) = false -> In t (pkg_specs p) -> eligible c p t = false.
+Proof.
+  intros c p t Hn Ht. unfold nameable in Hn. rewrite existsb_false_forall in Hn. specialize (Hn t Ht). simpl in Hn.
+  rewrite String.eqb_refl in Hn. exact Hn.
+Qed.
+
+Lemma make_data_not_nameable : forall c p T, wf p -> is_local p T = false -> nameable c p T = false ->
+  (c = CEnum -> alias_named p T = true \/ consts_of p T <> 0) ->
+  exists d, make_data c p true T = MFatal d.
+Proof.
+  intros c p T W Hl Hn Hen.
+  destruct c; simpl.
+  - destruct (named_or_absent p T) as [[t [Hw He]]|Habs].
+    + subst T. pose proof (nonlocal_named_top p t Hl Hw) as Ht.
+      pose proof (not_nameable_ineligible _ _ _ Hn Ht) as Hel. simpl in Hel.
+      rewrite (new_walk_unique _ (walk_pkg p) t (wf_names p W) Hw eq_refl).
+      destruct (is_struct t); simpl in *; [|eexists; reflexivity].
+      apply negb_false_iff in Hel. rewrite Hel. eexists; reflexivity.
+    + rewrite new_walk_absent by exact Habs. eexists; reflexivity.
+  - destruct (alias_named p T) eqn:Ea.
+    + apply enum_walk_alias_fatal. rewrite <- alias_named_walk. exact Ea.
+    + destruct (Hen eq_refl) as [C|Hc]; [discriminate|].
+      apply enum_walk_nonint_fatal; [|rewrite <- consts_of_all; exact Hc].
+      destruct (named_or_absent p T) as [[t [Hw He]]|Habs].
+      * subst T. pose proof (nonlocal_named_top p t Hl Hw) as Ht.
+        pose proof (not_nameable_ineligible _ _ _ Hn Ht) as Hel. simpl in Hel.
+        rewrite type_is_int_unique by assumption.
+        unfold alias_named in Ea. rewrite existsb_false_forall in Ea. specialize (Ea t Hw). simpl in Ea.
+        rewrite String.eqb_refl, andb_true_r in Ea. rewrite Ea in Hel. simpl in Hel.
+        apply Nat.eqb_neq in Hc. rewrite Hc in Hel. simpl in Hel. rewrite !andb_true_r in Hel. exact Hel.
+      * apply type_is_int_absent. intros t Ht. apply Habs. apply in_walk_pkg. left. exact Ht.
+  - assert (Hx : existsb (fun t0 => (ts_name t0 =? T) && is_rest_iface t0) (walk_pkg p) = false).
+    { apply existsb_false_forall. intros t Hw. destruct (ts_name t =? T) eqn:E; [|reflexivity]. simpl.
+      apply String.eqb_eq in E. subst T. pose proof (nonlocal_named_top p t Hl Hw) as Ht.
+      exact (not_nameable_ineligible _ _ _ Hn Ht). }
+    rewrite Hx. eexists; reflexivity.
+  - destruct (existsb (fun t0 => (ts_name t0 =? T) && is_struct t0) (walk_pkg p)) eqn:Ex; simpl; [|eexists; reflexivity].
+    apply existsb_exists in Ex. destruct Ex as [t [Hw Hx]]. apply andb_true_iff in Hx. destruct Hx as [He Hs].
+    apply String.eqb_eq in He. subst T. pose proof (nonlocal_named_top p t Hl Hw) as Ht.
+    pose proof (not_nameable_ineligible _ _ _ Hn Ht) as Hel. simpl in Hel. rewrite Hs in Hel. simpl in Hel.
+    unfold dest_has_struct in Hel. rewrite Hel. eexists; reflexivity.
+Qed.
+
+Lemma listable_test : forall c p t, listable c p t = true -> test_node_list c t = true.
+Proof.
+  intros c p t H. unfold listable in H. destruct c; simpl in *.
+  - rewrite andb_true_r in H. rewrite andb_comm. exact H.
+  - rewrite andb_true_r in H. rewrite !andb_true_iff in H. destruct H as [[H1 H2] _]. rewrite H1, H2. reflexivity.
+  - rewrite andb_true_r in H. exact H.
+  - rewrite !andb_true_iff in H. destruct H as [[H1 _] H2]. rewrite H1, H2. reflexivity.
+Qed.
+
+Lemma make_data_listed : forall c p t, wf p -> In t (pkg_specs p) -> test_node_list c t = true ->
+  make_data c p false (ts_name t) = if listable c p t then MGen else MSkip.
+Proof.
+  intros c p t W Ht Htest.
+  assert (Hw : In t (walk_pkg p)) by (apply in_walk_pkg; left; exact Ht).
+  unfold listable. destruct c; simpl in *.
+  - apply andb_true_iff in Htest. destruct Htest as [Hp Hs].
+    rewrite (new_walk_unique _ (walk_pkg p) t (wf_names p W) Hw eq_refl).
+    rewrite Hs, Hp. simpl. apply negb_true_iff in Hp. rewrite Hp. reflexivity.
+  - apply andb_true_iff in Htest. destruct Htest as [Hi Ha]. rewrite Hi, Ha. simpl.
+    apply negb_true_iff in Ha. rewrite enum_walk_ok.
+    + rewrite <- consts_of_all. simpl. rewrite andb_true_r. destruct (Nat.eqb (consts_of p (ts_name t)) 0); reflexivity.
+    + rewrite <- walk_pkg_decls. apply no_alias_named; assumption.
+    + left. rewrite type_is_int_unique; assumption.
+  - assert (Hx : existsb (fun t0 => (ts_name t0 =? ts_name t) && is_rest_iface t0) (walk_pkg p) = true).
+    { apply existsb_exists. exists t. split; [exact Hw|]. rewrite String.eqb_refl, Htest. reflexivity. }
+    rewrite Hx, Htest. reflexivity.
+  - apply andb_true_iff in Htest. destruct Htest as [Hs Hx'].
+    assert (Hx : existsb (fun t0 => (ts_name t0 =? ts_name t) && is_struct t0) (walk_pkg p) = true).
+    { apply existsb_exists. exists t. split; [exact Hw|]. rewrite String.eqb_refl, Hs. reflexivity. }
+    rewrite Hx, Hs, Hx'. simpl. unfold dest_has_struct. rewrite andb_true_r.
+    destruct (existsb (fun t0 => (ts_name t0 =? ts_name t) && is_struct t0) (p_dest p)); reflexivity.
+Qed.
+
+(* --------------------------------------------------------------- ListTypes *)
+
+Lemma filter_walk_top : forall (P : tspec -> bool) ds,
+  (forall t, In t (flat_map local_decl ds) -> P t = false) ->
+  filter P (flat_map walk_decl ds) = filter P (flat_map top_decl ds).
+Proof.
+  intros P ds. induction ds as [|d ds IH]; simpl; intros H; [reflexivity|].
+  rewrite !filter_app, walk_decl_split, filter_app.
+  rewrite (filter_none _ P (local_decl d)) by (intros x Hx; apply H; apply in_or_app; left; exact Hx).
+  rewrite app_nil_r, IH; [reflexivity|]. intros t Ht. apply H. apply in_or_app. right. exact Ht.
+Qed.
+
+Lemma list_types_top : forall c fl fs,
+  (forall f t, In f fs -> In t (flat_map local_decl (f_decls f)) -> test_node_list c t = false) ->
+  flat_map (fun f => if test_file fl f then map ts_name (filter (test_node_list c) (walk_file f)) else []) fs =
+  flat_map (fun f => if test_file fl f then map ts_name (filter (test_node_list c) (top_specs f)) else []) fs.
+Proof.
+  intros c fl fs. induction fs as [|f fs IH]; simpl; intros H; [reflexivity|].
+  rewrite IH by (intros f' t Hf' Ht; apply (H f' t); [right; exact Hf' | exact Ht]).
+  unfold walk_file, top_specs. rewrite filter_walk_top; [reflexivity|].
+  intros t Ht. apply (H f t); [left; reflexivity | exact Ht].
+Qed.
+
+Lemma no_local_listed : forall c p, existsb (test_node_list c) (local_specs p) = false ->
+  forall f t, In f (p_files p) -> In t (flat_map local_decl (f_decls f)) -> test_node_list c t = false.
+Proof.
+  intros c p H f t Hf Ht. rewrite existsb_false_forall in H. apply H. unfold local_specs.
+  apply in_flat_map. exists f. split; assumption.
+Qed.
+
+Lemma list_types_all : forall c fl p, fl_file fl = "" -> existsb (test_node_list c) (local_specs p) = false ->
+  list_types c fl p = map ts_name (filter (test_node_list c) (pkg_specs p)).
+Proof.
+  intros c fl p Hf Hl. unfold list_types. rewrite list_types_top by (apply no_local_listed; exact Hl).
+  unfold pkg_specs. rewrite filter_flat_map, map_flat_map. apply flat_map_ext. intros f.
+  unfold test_file. rewrite Hf. reflexivity.
+Qed.
+
+Lemma flat_map_select : forall (A : Type) (g : file -> list A) F fs, NoDup (map f_name fs) ->
+  flat_map (fun f => if f_name f =? F then g f else []) fs =
+  match find (fun f => f_name f =? F) fs with Some f => g f | None => [] end.
+Proof.
+  intros A g F fs. induction fs as [|f fs IH]; simpl; intros Hn; [reflexivity|].
+  inversion Hn as [|x xs Hnf Hn']; subst x xs. destruct (f_name f =? F) eqn:E.
+  - apply String.eqb_eq in E. rewrite IH by exact Hn'.
+    destruct (find (fun f0 => f_name f0 =? F) fs) as [f'|] eqn:E'; [|apply app_nil_r].
+    exfalso. apply find_some in E'. destruct E' as [Hf' He]. apply String.eqb_eq in He.
+    apply Hnf. rewrite E, <- He. apply in_map. exact Hf'.
+  - apply IH. exact Hn'.
+Qed.
+
+Lemma list_types_file : forall c fl p, wf p -> fl_file fl <> "" ->
+  existsb (test_node_list c) (local_specs p) = false ->
+  list_types c fl p = map ts_name (filter (test_node_list c) (file_named p (fl_file fl))).
+Proof.
+  intros c fl p W Hf Hl. unfold list_types. rewrite list_types_top by (apply no_local_listed; exact Hl).
+  apply String.eqb_neq in Hf.
+  rewrite (flat_map_ext _ (fun f => if f_name f =? fl_file fl then map ts_name (filter (test_node_list c) (top_specs f)) else [])).
+  - rewrite flat_map_select by (apply (wf_files p W)). unfold file_named.
+    destruct (find (fun f => f_name f =? fl_file fl) (p_files p)); reflexivity.
+  - intros f. unfold test_file. rewrite Hf. reflexivity.
+Qed.
+
+Lemma file_named_in : forall p F t, In t (file_named p F) ->
+  exists f, In f (p_files p) /\ f_name f = F /\ In t (top_specs f).
+Proof.
+  intros p F t H. unfold file_named in H. destruct (find (fun f => f_name f =? F) (p_files p)) as [f|] eqn:E; [|contradiction].
+  apply find_some in E. destruct E as [Hf He]. apply String.eqb_eq in He. exists f. tauto.
+Qed.
+
+(* ---------------------------------------------------------------- Generate *)
+
+Definition is_gen (r : md_res) : bool := match r with MGen => true | _ => false end.
+Definition keep (c : subcmd) (p : pkg) (sp : bool) (T : string) : bool := is_gen (make_data c p sp T).
+
+Lemma gen_loop_sep : forall c p fl aio fmap l files merged, fl_sep fl = true ->
+  (forall T d, In T l -> make_data c p (fl_specified fl) T <> MFatal d) ->
+  gen_loop c p fl aio fmap l files merged =
+  (None, fold_left (fun fs T => upsert (file_name c fl aio fmap T) [T] fs)
+                   (filter (keep c p (fl_specified fl)) l) files, merged).
+Proof.
+  intros c p fl aio fmap l. induction l as [|T l IH]; simpl; intros files merged Hs Hnf; [reflexivity|].
+  unfold keep at 1. destruct (make_data c p (fl_specified fl) T) eqn:E; simpl.
+  - rewrite Hs. apply IH; [exact Hs|]. intros T' d HT'. apply Hnf. right. exact HT'.
+  - apply IH; [exact Hs|]. intros T' d HT'. apply Hnf. right. exact HT'.
+  - exfalso. apply (Hnf T d); [left; reflexivity | exact E].
+Qed.
+
+Lemma gen_loop_merge : forall c p fl aio fmap l files merged, fl_sep fl = false ->
+  (forall T d, In T l -> make_data c p (fl_specified fl) T <> MFatal d) ->
+  gen_loop c p fl aio fmap l files merged = (None, files, (merged ++ filter (keep c p (fl_specified fl)) l)%list).
+Proof.
+  intros c p fl aio fmap l. induction l as [|T l IH]; simpl; intros files merged Hs Hnf.
+  - rewrite app_nil_r. reflexivity.
+  - unfold keep at 1. destruct (make_data c p (fl_specified fl) T) eqn:E; simpl.
+    + rewrite Hs. rewrite IH; [|exact Hs|intros T' d HT'; apply Hnf; right; exact HT'].
+      rewrite <- app_assoc. reflexivity.
+    + apply IH; [exact Hs|]. intros T' d HT'. apply Hnf. right. exact HT'.
+    + exfalso. apply (Hnf T d); [left; reflexivity | exact E].
+Qed.
+
+Lemma gen_loop_fatal : forall c p fl aio fmap l files merged,
+  (exists T d, In T l /\ make_data c p (fl_specified fl) T = MFatal d) ->
+  exists d fs m, gen_loop c p fl aio fmap l files merged = (Some d, fs, m).
+Proof.
+  intros c p fl aio fmap l. induction l as [|T l IH]; simpl; intros files merged [T0 [d0 [Hin Hf]]]; [contradiction|].
+  destruct (make_data c p (fl_specified fl) T) eqn:E.
+  - destruct Hin as [->|Hin]; [congruence|].
+    destruct (fl_sep fl); apply IH; exists T0, d0; tauto.
+  - destruct Hin as [->|Hin]; [congruence|]. apply IH. exists T0, d0. tauto.
+  - do 3 eexists. reflexivity.
+Qed.
+
+Lemma upsert_fresh : forall k v m, ~ In k (map fst m) -> upsert k v m = (m ++ [(k, v)])%list.
+Proof.
+  intros k v m. induction m as [|[k' v'] m IH]; simpl; intros H; [reflexivity|].
+  destruct (k' =? k) eqn:E.
+  - apply String.eqb_eq in E. exfalso. apply H. left. exact E.
+  - rewrite IH; [reflexivity|]. intros C. apply H. right. exact C.
+Qed.
+
+Lemma fold_upsert : forall (name : string -> string) l m, NoDup (map fst m ++ map name l) ->
+  fold_left (fun fs T => upsert (name T) [T] fs) l m = (m ++ map (fun T => (name T, [T])) l)%list.
+Proof.
+  intros name l. induction l as [|T l IH]; simpl; intros m Hn.
+  - rewrite app_nil_r. reflexivity.
+  - rewrite upsert_fresh.
+    + rewrite IH.
+      * rewrite <- app_assoc. reflexivity.
+      * rewrite map_app. simpl. rewrite <- app_assoc. exact Hn.
+    + intros C. apply (NoDup_app_disjoint _ _ _ (name T) Hn C). left. reflexivity.
+Qed.
+
+Lemma fold_left_ext_in : forall (A B : Type) (f g : A -> B -> A) l a,
+  (forall x b, In x l -> f b x = g b x) -> fold_left f l a = fold_left g l a.
+Proof.
+  intros A B f g l. induction l as [|x l IH]; simpl; intros a H; [reflexivity|].
+  rewrite H by (left; reflexivity). apply IH. intros y b Hy. apply H. right. exact Hy.
+Qed.
+
+Lemma filter_map_comm : forall (A B : Type) (P : B -> bool) (f : A -> B) l,
+  filter P (map f l) = map f (filter (fun x => P (f x)) l).
+Proof.
+  intros A B P f l. induction l as [|x l IH]; simpl; [reflexivity|].
+  destruct (P (f x)); simpl; rewrite IH; reflexivity.
+Qed.
+
+Lemma filter_keep_listable : forall c p pool, wf p -> (forall t, In t pool -> In t (pkg_specs p)) ->
+  filter (keep c p false) (map ts_name (filter (test_node_list c) pool)) = map ts_name (filter (listable c p) pool).
+Proof.
+  intros c p pool W. induction pool as [|t pool IH]; simpl; intros H; [reflexivity|].
+  assert (Ht : In t (pkg_specs p)) by (apply H; left; reflexivity).
+  assert (IH' := IH (fun t' Ht' => H t' (or_intror Ht'))).
+  destruct (test_node_list c t) eqn:Et; simpl.
+  - unfold keep at 1. rewrite (make_data_listed c p t W Ht Et). destruct (listable c p t); simpl; rewrite IH'; reflexivity.
+  - destruct (listable c p t) eqn:El; [|exact IH'].
+    apply listable_test in El. congruence.
+Qed.
+
+Lemma listed_no_fatal : forall c p pool T d, wf p -> (forall t, In t pool -> In t (pkg_specs p)) ->
+  In T (map ts_name (filter (test_node_list c) pool)) -> make_data c p false T <> MFatal d.
+Proof.
+  intros c p pool T d W H HT. apply in_map_iff in HT. destruct HT as [t [He Ht]]. apply filter_In in Ht.
+  destruct Ht as [Ht Hp]. subst T. rewrite (make_data_listed c p t W (H t Ht) Hp).
+  destruct (listable c p t); discriminate.
+Qed.
+
+(* ----------------------------------------------------------------- naming *)
+
+Lemma is_ident_nonempty : forall T, is_ident T = true -> T <> "".
+Proof. intros T H C. subst. discriminate. Qed.
+
+Lemma is_ident_not_star : forall T, is_ident T = true -> T <> "*".
+Proof. intros T H C. subst. vm_compute in H. discriminate. Qed.
+
+Lemma file_name_type : forall c fl aio fmap T, T <> "" ->
+  file_name c fl aio fmap T =
+  per_type_name c (if negb (fl_file fl =? "") then fl_file fl else if negb (aio =? "") then aio else assoc T fmap) T.
+Proof.
+  intros c fl aio fmap T H. unfold file_name, per_type_name. apply String.eqb_neq in H. rewrite H. reflexivity.
+Qed.
+
+Lemma file_name_all : forall c fl aio,
+  file_name c fl aio [] "" = all_in_one_name c (if fl_file fl =? "" then aio else fl_file fl).
+Proof.
+  intros c fl aio. unfold file_name, all_in_one_name. simpl.
+  destruct (fl_file fl =? ""); simpl; [|reflexivity]. destruct (aio =? "") eqn:E; simpl; [|reflexivity].
+  apply String.eqb_eq in E. subst. reflexivity.
+Qed.
+
+Lemma prefix_app_cong : forall a b c, String.prefix (a ++ b) (a ++ c) = String.prefix b c.
+Proof.
+  induction a as [|x a IH]; intros b c; simpl; [reflexivity|].
+  destruct (ascii_dec x x) as [_|N]; [apply IH | contradiction].
+Qed.
+
+Lemma prefix_empty : forall s, String.prefix "" s = true.
+Proof. destruct s; reflexivity. Qed.
+
+Lemma anchored_per_type : forall c p f T, In f (p_files p) -> anchored c p (per_type_name c (f_name f) T) = true.
+Proof.
+  intros c p f T Hf. unfold anchored. apply existsb_exists. exists f. split; [exact Hf|].
+  unfold has_prefix, per_type_name. rewrite prefix_app_cong.
+  change ("." ++ shootcmd c ++ ".") with (String "." (shootcmd c ++ ".")).
+  change ("." ++ shootcmd c ++ "." ++ type_part T ++ ".go") with (String "." (shootcmd c ++ "." ++ type_part T ++ ".go")).
+  simpl. rewrite prefix_app_cong. simpl. apply prefix_empty.
+Qed.
+
+Lemma anchored_all_in_one : forall c p f, In f (p_files p) -> anchored c p (all_in_one_name c (f_name f)) = true.
+Proof.
+  intros c p f Hf. unfold anchored. apply existsb_exists. exists f. split; [exact Hf|].
+  unfold has_prefix, all_in_one_name. rewrite prefix_app_cong.
+  change ("." ++ shootcmd c ++ ".") with (String "." (shootcmd c ++ ".")).
+  change ("." ++ shootcmd c ++ ".go") with (String "." (shootcmd c ++ "." ++ "go")).
+  simpl. rewrite prefix_app_cong. reflexivity.
+Qed.
+
+Lemma aio_is_file : forall fl p, all_in_one_file fl p <> "" ->
+  exists f, In f (p_files p) /\ all_in_one_file fl p = f_name f.
+Proof.
+  intros fl p H. unfold all_in_one_file in *.
+  destruct ((fl_file fl =? "") && mem "*" (fl_types fl)); [|contradiction].
+  destruct (find (file_has_cmdline (fl_cmdline fl)) (p_files p)) as [f|] eqn:E; [|contradiction].
+  apply find_some in E. exists f. tauto.
+Qed.
+
+Lemma file_arg_is_file : forall fl p, file_arg_ok fl p = true -> fl_file fl <> "" ->
+  exists f, In f (p_files p) /\ f_name f = fl_file fl.
+Proof.
+  intros fl p H Hne. unfold file_arg_ok in H. apply String.eqb_neq in Hne. rewrite Hne in H. simpl in H.
+  apply andb_true_iff in H. destruct H as [_ H]. apply mem_In in H. apply in_map_iff in H.
+  destruct H as [f [He Hf]]. exists f. tauto.
+Qed.
+
+Lemma check_file_arg_ok : forall fl p, file_arg_ok fl p = true -> check_file_arg fl p = None.
+Proof.
+  intros fl p H. unfold file_arg_ok in H. unfold check_file_arg. destruct (fl_file fl =? ""); [reflexivity|].
+  simpl in H. apply andb_true_iff in H. destruct H as [H1 H2]. rewrite H1, H2. reflexivity.
+Qed.
+
+Lemma check_file_arg_bad : forall fl p, file_arg_ok fl p = false -> exists d, check_file_arg fl p = Some d.
+Proof.
+  intros fl p H. unfold file_arg_ok in H. unfold check_file_arg. destruct (fl_file fl =? ""); [discriminate|].
+  simpl in H. destruct (ends_with ".go" (fl_file fl)); simpl in *; [|eexists; reflexivity].
+  rewrite H. simpl. eexists; reflexivity.
+Qed.
+
+(* ---------------------------------------------------------- confirmTypes *)
+
+Definition fm_ok (p : pkg) (m : list (string * string)) : Prop := forall k v, In (k, v) m -> v = decl_file p k.
+
+Lemma assoc_ok : forall p m T, fm_ok p m -> In T (map fst m) -> assoc T m = decl_file p T.
+Proof.
+  intros p m T. induction m as [|[k v] m IH]; simpl; intros Hok Hin; [contradiction|].
+  destruct (k =? T) eqn:E.
+  - apply String.eqb_eq in E. subst. apply Hok. left. reflexivity.
+  - apply IH.
+    + intros k' v' H. apply Hok. right. exact H.
+    + destruct Hin as [Hin|Hin]; [|exact Hin]. apply String.eqb_neq in E. contradiction.
+Qed.
+
+Lemma confirm_nofile : forall o p fl l fmap, perm_oracle o -> wf p -> fl_file fl = "" -> fm_ok p fmap ->
+  exists fm, confirm_specified o p fl l fmap = Some fm /\ fm_ok p fm /\
+             (forall T, In T l \/ In T (map fst fmap) -> In T (map fst fm)).
+Proof.
+  intros o p fl l. induction l as [|T l IH]; simpl; intros fmap Ho W Hf Hok.
+  - exists fmap. split; [reflexivity|]. split; [exact Hok|]. intros T [[]|H]. exact H.
+  - rewrite Hf. simpl. destruct (IH ((T, get_go_file o p T) :: fmap) Ho W Hf) as [fm [H1 [H2 H3]]].
+    + intros k v [H|H]; [|apply Hok; exact H]. inversion H; subst. apply get_go_file_perm; assumption.
+    + exists fm. split; [exact H1|]. split; [exact H2|]. intros T' [[->|H]|H]; apply H3.
+      * right. left. reflexivity.
+      * left. exact H.
+      * right. right. exact H.
+Qed.
+
+Lemma confirm_file : forall o p fl l fmap, perm_oracle o -> wf p -> fl_file fl <> "" ->
+  confirm_specified o p fl l fmap =
+  if forallb (fun T => decl_file p T =? fl_file fl) l then Some fmap else None.
+Proof.
+  intros o p fl l. induction l as [|T l IH]; simpl; intros fmap Ho W Hf; [reflexivity|].
+  apply String.eqb_neq in Hf. rewrite Hf. rewrite get_go_file_perm by assumption.
+  rewrite (String.eqb_sym (fl_file fl)). destruct (decl_file p T =? fl_file fl); simpl; [|reflexivity].
+  apply IH; try assumption. apply String.eqb_neq. exact Hf.
+Qed.
+
+(* ------------------------------------------------------------ main theorem *)
+
+Definition refines (o : oracle) (c : subcmd) (fl : cflags) (p : pkg) : Prop :=
+  match spec c fl p with
+  | EFail => exists d, run o c fl p = Failed d
+  | EFiles fs => run o c fl p = Done fs (o _ (map fst fs)) /\ forallb (anchored c p) (map fst fs) = true
+  end.
+
+Lemma known_class_false : forall c fl p, known_class c fl p = false ->
+  k_enum_missing_silent c fl p = false /\ k_star_no_generate_line c fl p = false /\
+  k_star_sep_file c fl p = false /\ k_local_type_listed c fl p = false /\ k_lower_collision c fl p = false.
+Proof.
+  intros c fl p H. unfold known_class in H. rewrite !orb_false_iff in H. tauto.
+Qed.
+
+Lemma forallb_false_exists : forall (A : Type) (P : A -> bool) l, forallb P l = false -> exists x, In x l /\ P x = false.
+Proof.
+  intros A P l. induction l as [|a l IH]; simpl; intros H; [discriminate|].
+  destruct (P a) eqn:E.
+  - destruct (IH H) as [x [Hx Hp]]. exists x. tauto.
+  - exists a. tauto.
+Qed.
+
+Lemma filter_all : forall (A : Type) (P : A -> bool) l, (forall x, In x l -> P x = true) -> filter P l = l.
+Proof.
+  intros A P l. induction l as [|a l IH]; simpl; intros H; [reflexivity|].
+  rewrite (H a (or_introl eq_refl)). f_equal. apply IH. intros x Hx. apply H. right. exact Hx.
+Qed.
+
+Lemma nameable_ident : forall c p T, wf p -> nameable c p T = true -> is_ident T = true.
+Proof.
+  intros c p T W H. apply nameable_iff in H. destruct H as [t [Ht [He _]]]. subst T.
+  apply (wf_idents p W). apply in_walk_pkg. left. exact Ht.
+Qed.
+
+Lemma nameable_file : forall c p T, wf p -> nameable c p T = true ->
+  exists f, In f (p_files p) /\ decl_file p T = f_name f.
+Proof.
+  intros c p T W H. apply nameable_iff in H. destruct H as [t [Ht [He _]]]. subst T.
+  destruct (in_pkg_specs_file p t Ht) as [f [Hf Htf]]. exists f. split; [exact Hf|].
+  apply decl_file_spec; assumption.
+Qed.
+
+(* some name of an explicit list cannot be generated for: the loop stops with a diagnostic *)
+Lemma specified_fatal : forall c p fl aio fm, wf p -> fl_specified fl = true ->
+  k_enum_missing_silent c fl p = false -> k_local_type_listed c fl p = false ->
+  forallb (nameable c p) (fl_types fl) = false ->
+  exists d fs m, gen_loop c p fl aio fm (fl_types fl) [] [] = (Some d, fs, m).
+Proof.
+  intros c p fl aio fm W Hsp Henum Hloc Hall.
+  apply forallb_false_exists in Hall. destruct Hall as [T [HT Hn]].
+  unfold k_local_type_listed in Hloc. rewrite Hsp in Hloc. rewrite existsb_false_forall in Hloc.
+  destruct (make_data_not_nameable c p T W (Hloc T HT) Hn) as [d Hd].
+  - intros ->. unfold k_enum_missing_silent in Henum. rewrite Hsp in Henum. simpl in Henum.
+    rewrite existsb_false_forall in Henum. specialize (Henum T HT). simpl in Henum. rewrite Hn in Henum. simpl in Henum.
+    destruct (alias_named p T); [left; reflexivity|]. simpl in Henum. right. apply Nat.eqb_neq. exact Henum.
+  - apply gen_loop_fatal. exists T, d. rewrite Hsp. tauto.
+Qed.
+
+Lemma refines_specified : forall o c fl p, perm_oracle o -> wf p ->
+  fl_specified fl = true -> fl_sep fl = true -> file_arg_ok fl p = true ->
+  k_enum_missing_silent c fl p = false -> k_local_type_listed c fl p = false -> k_lower_collision c fl p = false ->
+  refines o c fl p.
+Proof.
+  intros o c fl p Ho W Hsp Hsep Hfa Henum Hloc Hcoll.
+  destruct (forallb (nameable c p) (fl_types fl) &&
+            ((fl_file fl =? "") || forallb (fun T => decl_file p T =? fl_file fl) (fl_types fl))) eqn:Eok.
+  - (* every name is eligible (and lies in the -file) *)
+    assert (Hspec : spec c fl p = EFiles (map (fun T => (per_type_name c (decl_file p T) T, [T])) (fl_types fl))).
+    { unfold spec. rewrite Hfa, Hsp, Eok. reflexivity. }
+    apply andb_true_iff in Eok. destruct Eok as [Hall Hfile]. rewrite forallb_forall in Hall.
+    assert (Haio : all_in_one_file fl p = "").
+    { unfold all_in_one_file. destruct (mem "*" (fl_types fl)) eqn:Em; [|rewrite andb_false_r; reflexivity].
+      exfalso. apply mem_In in Em. apply (is_ident_not_star "*"); [|reflexivity].
+      apply (nameable_ident c p "*" W). apply Hall. exact Em. }
+    assert (Hconf : exists fm, confirm_specified o p fl (fl_types fl) [] = Some fm /\
+              forall T, In T (fl_types fl) ->
+                (if negb (fl_file fl =? "") then fl_file fl else if negb ("" =? "") then "" else assoc T fm) = decl_file p T).
+    { destruct (fl_file fl =? "") eqn:Ef.
+      - apply String.eqb_eq in Ef. destruct (confirm_nofile o p fl (fl_types fl) [] Ho W Ef) as [fm [H1 [H2 H3]]].
+        { intros k v []. }
+        exists fm. split; [exact H1|]. intros T HT. simpl. apply assoc_ok; [exact H2|]. apply H3. left. exact HT.
+      - assert (Ef' := Ef). apply String.eqb_neq in Ef'. rewrite confirm_file by assumption.
+        simpl in Hfile. rewrite Hfile. exists []. split; [reflexivity|]. intros T HT. simpl.
+        rewrite forallb_forall in Hfile. specialize (Hfile T HT). apply String.eqb_eq in Hfile. symmetry. exact Hfile. }
+    destruct Hconf as [fm [Hc Hsrc]].
+    unfold refines. rewrite Hspec. unfold k_lower_collision, expected_names in Hcoll. rewrite Hspec in Hcoll.
+    rewrite map_map in Hcoll. simpl in Hcoll. apply negb_false_iff in Hcoll. apply nodupb_NoDup in Hcoll.
+    split.
+    + unfold run. rewrite (check_file_arg_ok fl p Hfa). unfold run_loaded. rewrite Hsp, Hc, Haio.
+      rewrite gen_loop_sep; [|exact Hsep|].
+      * rewrite Hsp. rewrite filter_all.
+        -- rewrite (fold_left_ext_in _ _ _ (fun fs T => upsert (per_type_name c (decl_file p T) T) [T] fs)).
+           ++ rewrite (fold_upsert (fun T => per_type_name c (decl_file p T) T)); [reflexivity | simpl; exact Hcoll].
+           ++ intros T fs HT. rewrite file_name_type.
+              ** rewrite (Hsrc T HT). reflexivity.
+              ** apply is_ident_nonempty. apply (nameable_ident c p T W). apply Hall. exact HT.
+        -- intros T HT. unfold keep. rewrite (make_data_nameable c p true T W (Hall T HT)). reflexivity.
+      * intros T d HT. rewrite (make_data_nameable c p _ T W (Hall T HT)). discriminate.
+    + rewrite map_map. simpl. apply forallb_forall. intros n Hn. apply in_map_iff in Hn. destruct Hn as [T [He HT]].
+      subst n. destruct (nameable_file c p T W (Hall T HT)) as [f [Hf Hd]]. rewrite Hd.
+      apply anchored_per_type. exact Hf.
+  - (* a name that is missing or of the wrong kind, or outside the -file *)
+    assert (Hspec : spec c fl p = EFail).
+    { unfold spec. rewrite Hfa, Hsp, Eok. reflexivity. }
+    unfold refines. rewrite Hspec. unfold run. rewrite (check_file_arg_ok fl p Hfa). unfold run_loaded. rewrite Hsp.
+    destruct (fl_file fl =? "") eqn:Ef.
+    + simpl in Eok. rewrite andb_true_r in Eok. apply String.eqb_eq in Ef.
+      destruct (confirm_nofile o p fl (fl_types fl) [] Ho W Ef) as [fm [H1 _]].
+      { intros k v []. }
+      rewrite H1.
+      destruct (specified_fatal c p fl (all_in_one_file fl p) fm W Hsp Henum Hloc Eok) as [d [fs [m Hg]]].
+      rewrite Hg. exists d. reflexivity.
+    + assert (Ef' := Ef). apply String.eqb_neq in Ef'. rewrite confirm_file by assumption. simpl in Eok.
+      destruct (forallb (fun T => decl_file p T =? fl_file fl) (fl_types fl)).
+      * rewrite andb_true_r in Eok.
+        destruct (specified_fatal c p fl (all_in_one_file fl p) [] W Hsp Henum Hloc Eok) as [d [fs [m Hg]]].
+        rewrite Hg. exists d. reflexivity.
+      * exists DgNotInFile. reflexivity.
+Qed.
+
+Lemma refines_listed : forall o c fl p, perm_oracle o -> wf p ->
+  fl_specified fl = false -> file_arg_ok fl p = true ->
+  k_star_no_generate_line c fl p = false -> k_star_sep_file c fl p = false ->
+  k_local_type_listed c fl p = false -> k_lower_collision c fl p = false ->
+  refines o c fl p.
+Proof.
+  intros o c fl p Ho W Hsp Hfa Hnogen Hstarsep Hloc Hcoll.
+  unfold k_local_type_listed in Hloc. rewrite Hsp in Hloc.
+  set (pool := if fl_file fl =? "" then pkg_specs p else file_named p (fl_file fl)).
+  assert (Hpool : forall t, In t pool -> In t (pkg_specs p)).
+  { intros t Ht. unfold pool in Ht. destruct (fl_file fl =? ""); [exact Ht|].
+    destruct (file_named_in p _ t Ht) as [f [Hf [_ Htf]]]. eapply top_specs_in_pkg; eassumption. }
+  assert (Hlist : list_types c fl p = map ts_name (filter (test_node_list c) pool)).
+  { unfold pool. destruct (fl_file fl =? "") eqn:Ef.
+    - apply String.eqb_eq in Ef. apply list_types_all; assumption.
+    - apply String.eqb_neq in Ef. apply list_types_file; assumption. }
+  remember (map ts_name (filter (listable c p) pool)) as sel eqn:Hsel.
+  assert (Hselspec : spec_selection c fl p = sel) by (subst sel; reflexivity).
+  (* every selected name comes from a package-level declaration of the pool *)
+  assert (Hselin : forall T, In T sel -> exists t, In t pool /\ ts_name t = T).
+  { intros T HT. subst sel. apply in_map_iff in HT. destruct HT as [t [He Ht]]. apply filter_In in Ht. exists t. tauto. }
+  (* the source file the code uses for T is the file declaring T *)
+  assert (Hsrc : fl_sep fl = true -> forall T, In T sel ->
+            (if negb (fl_file fl =? "") then fl_file fl
+             else if negb (all_in_one_file fl p =? "") then all_in_one_file fl p else assoc T []) = decl_file p T).
+  { intros Hsep T HT. destruct (Hselin T HT) as [t [Ht He]]. subst T. unfold pool in Ht.
+    destruct (fl_file fl =? "") eqn:Ef; simpl.
+    - unfold k_star_no_generate_line, star_mode in Hnogen. rewrite Hsp, Ef, Hselspec in Hnogen. simpl in Hnogen.
+      unfold k_star_sep_file, star_mode in Hstarsep. rewrite Hsp, Ef, Hsep, Hselspec in Hstarsep. simpl in Hstarsep.
+      rewrite existsb_false_forall in Hstarsep. specialize (Hstarsep _ HT). apply negb_false_iff in Hstarsep.
+      apply String.eqb_eq in Hstarsep.
+      destruct (all_in_one_file fl p =? "") eqn:Ea; simpl.
+      + simpl in Hnogen. destruct sel; [contradiction | discriminate].
+      + symmetry. exact Hstarsep.
+    - destruct (file_named_in p _ t Ht) as [f [Hf [Hn Htf]]]. rewrite (decl_file_spec p f t W Hf Htf). symmetry. exact Hn. }
+  assert (Hrun : run o c fl p =
+            match gen_loop c p fl (all_in_one_file fl p) [] (map ts_name (filter (test_node_list c) pool)) [] [] with
+            | (Some d, _, _) => Failed d
+            | (None, files, merged) =>
+                let files' := match merged with [] => files | _ => upsert (file_name c fl (all_in_one_file fl p) [] "") merged files end in
+                Done files' (o _ (map fst files'))
+            end).
+  { unfold run. rewrite (check_file_arg_ok fl p Hfa). unfold run_loaded. rewrite Hsp, Hlist. reflexivity. }
+  assert (Hnofatal : forall T d, In T (map ts_name (filter (test_node_list c) pool)) ->
+            make_data c p (fl_specified fl) T <> MFatal d).
+  { intros T d HT. rewrite Hsp. eapply listed_no_fatal; eassumption. }
+  unfold refines. destruct (fl_sep fl) eqn:Esep.
+  - (* one file per selected type *)
+    assert (Hspec : spec c fl p = EFiles (map (fun T => (per_type_name c (decl_file p T) T, [T])) sel)).
+    { unfold spec. rewrite Hfa, Hsp, Esep. subst sel. reflexivity. }
+    rewrite Hspec. unfold k_lower_collision, expected_names in Hcoll. rewrite Hspec in Hcoll.
+    rewrite map_map in Hcoll. simpl in Hcoll. apply negb_false_iff in Hcoll. apply nodupb_NoDup in Hcoll.
+    split.
+    + rewrite Hrun. rewrite gen_loop_sep by assumption. rewrite Hsp, filter_keep_listable by assumption. rewrite <- Hsel.
+      rewrite (fold_left_ext_in _ _ _ (fun fs T => upsert (per_type_name c (decl_file p T) T) [T] fs)).
+      * rewrite (fold_upsert (fun T => per_type_name c (decl_file p T) T)); [reflexivity | simpl; exact Hcoll].
+      * intros T fs HT. rewrite file_name_type.
+        -- rewrite (Hsrc eq_refl T HT). reflexivity.
+        -- destruct (Hselin T HT) as [t [Ht He]]. subst T. apply is_ident_nonempty. apply (wf_idents p W).
+           apply in_walk_pkg. left. apply Hpool. exact Ht.
+    + rewrite map_map. simpl. apply forallb_forall. intros n Hn. apply in_map_iff in Hn. destruct Hn as [T [He HT]].
+      subst n. destruct (Hselin T HT) as [t [Ht Hn]]. subst T.
+      destruct (in_pkg_specs_file p t (Hpool t Ht)) as [f [Hf Htf]]. rewrite (decl_file_spec p f t W Hf Htf).
+      apply anchored_per_type. exact Hf.
+  - (* all selected types in one file *)
+    rewrite Hrun. rewrite gen_loop_merge by assumption. rewrite Hsp, filter_keep_listable by assumption. rewrite <- Hsel.
+    simpl. destruct sel as [|T0 sel'] eqn:Es.
+    + assert (Hspec : spec c fl p = EFiles []).
+      { unfold spec. rewrite Hfa, Hsp, Esep. fold pool. rewrite <- Hsel. reflexivity. }
+      rewrite Hspec. split; reflexivity.
+    + assert (Hspec : spec c fl p = EFiles [(all_in_one_name c (if fl_file fl =? "" then all_in_one_file fl p else fl_file fl), T0 :: sel')]).
+      { unfold spec. rewrite Hfa, Hsp, Esep. fold pool. rewrite <- Hsel. reflexivity. }
+      rewrite Hspec. rewrite file_name_all. split; [reflexivity|]. simpl. rewrite andb_true_r.
+      destruct (fl_file fl =? "") eqn:Ef.
+      * unfold k_star_no_generate_line, star_mode in Hnogen. rewrite Hsp, Ef, Hselspec in Hnogen. simpl in Hnogen.
+        rewrite andb_true_r in Hnogen. apply String.eqb_neq in Hnogen.
+        destruct (aio_is_file fl p Hnogen) as [f [Hf He]]. rewrite He. apply anchored_all_in_one. exact Hf.
+      * apply String.eqb_neq in Ef. destruct (file_arg_is_file fl p Hfa Ef) as [f [Hf He]]. rewrite <- He.
+        apply anchored_all_in_one. exact Hf.
+Qed.
+
+Theorem run_refines_spec : forall o c fl p,
+  perm_oracle o -> wf_pkgb p = true -> flags_okb fl = true -> known_class c fl p = false -> refines o c fl p.
+Proof.
+  intros o c fl p Ho Hwf Hfl Hk. apply wf_pkgb_wf in Hwf.
+  apply known_class_false in Hk. destruct Hk as [H1 [H2 [H3 [H4 H5]]]].
+  destruct (file_arg_ok fl p) eqn:Hfa.
+  - destruct (fl_specified fl) eqn:Hsp.
+    + unfold flags_okb in Hfl. rewrite Hsp in Hfl. simpl in Hfl. apply refines_specified; assumption.
+    + apply refines_listed; assumption.
+  - unfold refines, spec. rewrite Hfa. simpl. destruct (check_file_arg_bad fl p Hfa) as [d Hd].
+    exists d. unfold run. rewrite Hd. reflexivity.
+Qed.
+
+(* ----------------------------------------------------------- consequences *)
+
+Lemma refines_meets : forall o c fl p, perm_oracle o -> refines o c fl p ->
+  meets c p (run o c fl p) (spec c fl p) = true.
+Proof.
+  intros o c fl p Ho H. unfold refines in H. destruct (spec c fl p) as [|fs].
+  - destruct H as [d Hd]. rewrite Hd. reflexivity.
+  - destruct H as [Hr Ha]. rewrite Hr. simpl. rewrite srcmap_same_refl, Ha.
+    rewrite (perm_eqb_complete _ _ (Ho _ (map fst fs))). reflexivity.
+Qed.
+
+Theorem run_meets_spec : forall o c fl p,
+  perm_oracle o -> wf_pkgb p = true -> flags_okb fl = true -> known_class c fl p = false ->
+  meets c p (run o c fl p) (spec c fl p) = true.
+Proof. intros o c fl p Ho Hwf Hfl Hk. apply refines_meets; [exact Ho|]. apply run_refines_spec; assumption. Qed.
+
+(* the success message lists exactly the written files -- for every input *)
+Theorem message_lists_every_file : forall o c fl p files listed,
+  perm_oracle o -> run o c fl p = Done files listed -> Permutation listed (map fst files).
+Proof.
+  intros o c fl p files listed Ho H. unfold run in H. destruct (check_file_arg fl p); [discriminate|].
+  unfold run_loaded in H.
+  destruct (if fl_specified fl
+            then match confirm_specified o p fl (fl_types fl) [] with
+                 | Some fmap => Some (fl_types fl, fmap) | None => None end
+            else Some (list_types c fl p, [])) as [[types fmap]|]; [|discriminate].
+  destruct (gen_loop c p fl (all_in_one_file fl p) fmap types [] []) as [[[d|] fs] merged]; [discriminate|].
+  inversion H; subst. apply Ho.
+Qed.
+
+(* a failing run writes nothing: by construction a [Failed] outcome carries no
+   file; a run that writes files is [Done] *)
+
+(* naming a missing or wrong-kind type: a diagnostic and no file at all *)
+Theorem bad_name_fails : forall o c fl p T,
+  perm_oracle o -> wf_pkgb p = true -> fl_specified fl = true ->
+  In T (fl_types fl) -> nameable c p T = false -> is_local p T = false ->
+  (c = CEnum -> alias_named p T = true \/ consts_of p T <> 0) ->
+  exists d, run o c fl p = Failed d.
+Proof.
+  intros o c fl p T Ho Hwf Hsp HT Hn Hl Hen. apply wf_pkgb_wf in Hwf.
+  unfold run. destruct (check_file_arg fl p) as [d|]; [exists d; reflexivity|].
+  unfold run_loaded. rewrite Hsp. destruct (confirm_specified o p fl (fl_types fl) []) as [fm|]; [|eexists; reflexivity].
+  destruct (make_data_not_nameable c p T Hwf Hl Hn Hen) as [d Hd].
+  destruct (gen_loop_fatal c p fl (all_in_one_file fl p) fm (fl_types fl) [] []) as [d' [fs [m Hg]]].
+  - exists T, d. rewrite Hsp. tauto.
+  - rewrite Hg. exists d'. reflexivity.
+Qed.
+
+(* the code's decision to generate for an explicitly named type is the declarative [nameable] *)
+Theorem generated_iff_nameable : forall c p T, wf_pkgb p = true -> is_local p T = false ->
+  (make_data c p true T = MGen <-> nameable c p T = true).
+Proof.
+  intros c p T Hwf Hl. apply wf_pkgb_wf in Hwf. split.
+  - intros Hg. destruct (nameable c p T) eqn:Hn; [reflexivity|]. exfalso.
+    destruct c; try (destruct (make_data_not_nameable _ p T Hwf Hl Hn) as [d Hd]; [discriminate | congruence]).
+    (* enum: an alias or non-integer constants are fatal, no constants at all is a silent skip *)
+    destruct (alias_named p T) eqn:Ea.
+    + destruct (make_data_not_nameable CEnum p T Hwf Hl Hn) as [d Hd]; [intros _; left; exact Ea | congruence].
+    + destruct (Nat.eqb (consts_of p T) 0) eqn:Ec.
+      * apply Nat.eqb_eq in Ec. simpl in Hg. rewrite enum_walk_ok in Hg.
+        -- rewrite <- consts_of_all, Ec in Hg. discriminate.
+        -- rewrite <- alias_named_walk. exact Ea.
+        -- right. rewrite <- consts_of_all. exact Ec.
+      * apply Nat.eqb_neq in Ec.
+        destruct (make_data_not_nameable CEnum p T Hwf Hl Hn) as [d Hd]; [intros _; right; exact Ec | congruence].
+  - intros Hn. apply make_data_nameable; assumption.
+Qed.
+
+(* the code's two-stage filter of -file / -type=* (ListTypes, then MakeData
+   skipping) is the declarative [listable] on package-level declarations *)
+Theorem listed_iff_listable : forall c p t, wf_pkgb p = true -> In t (pkg_specs p) ->
+  (test_node_list c t && keep c p false (ts_name t)) = listable c p t.
+Proof.
+  intros c p t Hwf Ht. apply wf_pkgb_wf in Hwf. destruct (test_node_list c t) eqn:Et; simpl.
+  - unfold keep. rewrite (make_data_listed c p t Hwf Ht Et). destruct (listable c p t); reflexivity.
+  - destruct (listable c p t) eqn:El; [|reflexivity]. apply listable_test in El. congruence.
+Qed.
+
+(* the classes are disjoint from an explicit list of eligible, distinctly named types *)
+Lemma type_list_outside_classes : forall c fl p, wf p ->
+  fl_specified fl = true -> (forall T, In T (fl_types fl) -> nameable c p T = true) ->
+  k_enum_missing_silent c fl p = false /\ k_local_type_listed c fl p = false.
+Proof.
+  intros c fl p W Hsp Hall. split.
+  - unfold k_enum_missing_silent. rewrite Hsp.
+    assert (H : existsb (fun T => negb (nameable c p T) && negb (alias_named p T) && Nat.eqb (consts_of p T) 0) (fl_types fl) = false).
+    { apply existsb_false_forall. intros T HT. rewrite (Hall T HT). reflexivity. }
+    rewrite H. rewrite andb_false_r. reflexivity.
+  - unfold k_local_type_listed. rewrite Hsp. apply existsb_false_forall. intros T HT.
+    specialize (Hall T HT). apply nameable_iff in Hall. destruct Hall as [t [Ht [He _]]]. subst T.
+    apply top_not_local; assumption.
+Qed.
+
+(* -type=A,B: exactly the named types, one file each, named after the declaring file *)
+Theorem type_list_exact : forall o c fl p,
+  perm_oracle o -> wf_pkgb p = true -> fl_specified fl = true -> fl_sep fl = true -> fl_file fl = "" ->
+  (forall T, In T (fl_types fl) -> nameable c p T = true) ->
+  NoDup (map (fun T => per_type_name c (decl_file p T) T) (fl_types fl)) ->
+  run o c fl p = Done (map (fun T => (per_type_name c (decl_file p T) T, [T])) (fl_types fl))
+                      (o _ (map (fun T => per_type_name c (decl_file p T) T) (fl_types fl))).
+Proof.
+  intros o c fl p Ho Hwf Hsp Hsep Hf Hall Hnd. apply wf_pkgb_wf in Hwf.
+  assert (Hfa : file_arg_ok fl p = true) by (unfold file_arg_ok; rewrite Hf; reflexivity).
+  assert (Hspec : spec c fl p = EFiles (map (fun T => (per_type_name c (decl_file p T) T, [T])) (fl_types fl))).
+  { unfold spec. rewrite Hfa, Hsp, Hf. simpl. rewrite andb_true_r.
+    assert (H : forallb (nameable c p) (fl_types fl) = true) by (apply forallb_forall; exact Hall).
+    rewrite H. reflexivity. }
+  destruct (type_list_outside_classes c fl p Hwf Hsp Hall) as [H1 H4].
+  assert (H5 : k_lower_collision c fl p = false).
+  { unfold k_lower_collision, expected_names. rewrite Hspec, map_map. simpl. apply negb_false_iff. apply nodupb_NoDup. exact Hnd. }
+  pose proof (refines_specified o c fl p Ho Hwf Hsp Hsep Hfa H1 H4 H5) as R. unfold refines in R. rewrite Hspec in R.
+  destruct R as [R _]. rewrite R, map_map. reflexivity.
+Qed.
+
+(* -file=f.go: exactly the eligible declarations of f.go, in declaration order, in f.shoot<cmd>.go *)
+Theorem file_mode_exact : forall o c fl p f,
+  perm_oracle o -> wf_pkgb p = true -> fl_specified fl = false -> fl_sep fl = false ->
+  In f (p_files p) -> fl_file fl = f_name f -> ends_with ".go" (f_name f) = true ->
+  existsb (test_node_list c) (local_specs p) = false ->
+  let sel := map ts_name (filter (listable c p) (top_specs f)) in
+  run o c fl p = match sel with
+                 | [] => Done [] (o _ [])
+                 | _ => Done [(trim_go (f_name f) ++ "." ++ shootcmd c ++ ".go", sel)]
+                             (o _ [trim_go (f_name f) ++ "." ++ shootcmd c ++ ".go"])
+                 end.
+Proof.
+  intros o c fl p f Ho Hwf Hsp Hsep Hf Hfile Hgo Hloc sel. apply wf_pkgb_wf in Hwf.
+  assert (Hne : f_name f <> "").
+  { intros C. pose proof (wf_visible p Hwf f Hf) as V. rewrite C in V. discriminate. }
+  assert (Hfa : file_arg_ok fl p = true).
+  { unfold file_arg_ok. rewrite Hfile, Hgo. apply String.eqb_neq in Hne. rewrite Hne. simpl.
+    apply mem_In. apply in_map. exact Hf. }
+  assert (Hfn : file_named p (fl_file fl) = top_specs f).
+  { unfold file_named. rewrite Hfile. destruct (find (fun f0 => f_name f0 =? f_name f) (p_files p)) as [f'|] eqn:E.
+    - apply find_some in E. destruct E as [Hf' He]. apply String.eqb_eq in He.
+      rewrite (NoDup_map_inj _ _ f_name _ f' f (wf_files p Hwf) Hf' Hf He). reflexivity.
+    - pose proof (find_none _ _ E f Hf) as C. simpl in C. rewrite String.eqb_refl in C. discriminate. }
+  assert (Hnes : (fl_file fl =? "") = false) by (rewrite Hfile; apply String.eqb_neq; exact Hne).
+  assert (Hspec : spec c fl p = match sel with [] => EFiles [] | _ => EFiles [(all_in_one_name c (fl_file fl), sel)] end).
+  { unfold spec. rewrite Hfa, Hsp, Hsep, Hnes. simpl. rewrite Hfn. fold sel. destruct sel; reflexivity. }
+  assert (R : refines o c fl p).
+  { apply refines_listed; try assumption.
+    - unfold k_star_no_generate_line, star_mode. rewrite Hsp, Hnes. reflexivity.
+    - unfold k_star_sep_file, star_mode. rewrite Hsp, Hnes. reflexivity.
+    - unfold k_local_type_listed. rewrite Hsp. exact Hloc.
+    - unfold k_lower_collision, expected_names. rewrite Hspec. destruct sel; reflexivity. }
+  unfold refines in R. rewrite Hspec in R. destruct sel as [|T0 sel'].
+  - destruct R as [R _]. exact R.
+  - destruct R as [R _]. rewrite R. unfold all_in_one_name. rewrite Hfile. reflexivity.
+Qed.
+
+(* -type=*: all eligible declarations of the package, in file and declaration
+   order, in <file of the //go:generate line>.shoot<cmd>.go *)
+Theorem star_mode_exact : forall o c fl p,
+  perm_oracle o -> wf_pkgb p = true -> fl_specified fl = false -> fl_sep fl = false -> fl_file fl = "" ->
+  all_in_one_file fl p <> "" ->
+  existsb (test_node_list c) (local_specs p) = false ->
+  let sel := map ts_name (filter (listable c p) (pkg_specs p)) in
+  run o c fl p = match sel with
+                 | [] => Done [] (o _ [])
+                 | _ => Done [(trim_go (all_in_one_file fl p) ++ "." ++ shootcmd c ++ ".go", sel)]
+                             (o _ [trim_go (all_in_one_file fl p) ++ "." ++ shootcmd c ++ ".go"])
+                 end.
+Proof.
+  intros o c fl p Ho Hwf Hsp Hsep Hf Haio Hloc sel. apply wf_pkgb_wf in Hwf.
+  assert (Hfa : file_arg_ok fl p = true) by (unfold file_arg_ok; rewrite Hf; reflexivity).
+  assert (Hspec : spec c fl p = match sel with [] => EFiles [] | _ => EFiles [(all_in_one_name c (all_in_one_file fl p), sel)] end).
+  { unfold spec. rewrite Hfa, Hsp, Hsep, Hf. simpl. fold sel. destruct sel; reflexivity. }
+  assert (R : refines o c fl p).
+  { apply refines_listed; try assumption.
+    - unfold k_star_no_generate_line. apply String.eqb_neq in Haio. rewrite Haio. rewrite andb_false_r. reflexivity.
+    - unfold k_star_sep_file. rewrite Hsep. rewrite andb_false_r. reflexivity.
+    - unfold k_local_type_listed. rewrite Hsp. exact Hloc.
+    - unfold k_lower_collision, expected_names. rewrite Hspec. destruct sel; reflexivity. }
+  unfold refines in R. rewrite Hspec in R. destruct sel as [|T0 sel'].
+  - destruct R as [R _]. exact R.
+  - destruct R as [R _]. rewrite R. reflexivity.
+Qed.
